@@ -10,7 +10,7 @@ EXPLANATION = ('Exhaustive finite-domain evaluation (abstract interpretation of 
                'functions that decide the lifecycle: the event-emission table of transition_to_state over (current, requested, desired, '
                'last CONNACK) and the pursuit table of compute_optional_state_transition over (current, desired, stop options); the one '
                'documented waiting cell must have a producer; error-origin flow shows which errors can end the event loops; writers of the '
-               'lifecycle fields.')
+               'lifecycle fields. Added in round 3 / after the mutation sweeps: Shutdown drops the stop options with the engine reset; a completed DISCONNECT always comes back as the user-initiated-disconnect pseudo-error; the per-state loops of both drivers leave their state when a transition is offered and after a reported failure.')
 ASSUMPTIONS = ['not decided: bounded-time stop "once the transport reacts", and event well-formedness over all transport behaviours and request timings; '
                'the tables are complete for the two deciding functions, the drivers\' use of them is checked structurally only']
 ST = 'client::ClientImplState'
@@ -255,9 +255,9 @@ def run(ctx):
     for fn_ in ('ProtocolState::complete_operation_as_success', 'ProtocolState::complete_operation_as_failure'):
         v_ = ctx.fn(fn_)
         cs_ = v_.calls('ProtocolState::apply_disconnect_completion')
-        uw_ = [c for c in v_.calls('Option::unwrap', 'unwrap') if show(c.arg(0)).startswith('HashMap::remove(self.operations')]
+        se_ = prims.edge_nodes_matching(v_, [r'^HashMap::remove\(self\.operations, id\) is Some$'])
         tb_ = [q for q in v_.calls('Try::branch', 'branch') if 'ProtocolState::apply_disconnect_completion(' in show(q.arg(0))]
-        ok_ = len(cs_) == 1 and len(uw_) == 1 and len(tb_) == 1 and prims.must_pass(v_, uw_[0].bb, [cs_[0].bb])[0] and prims.must_pass(v_, cs_[0].bb, [tb_[0].bb])[0]
+        ok_ = len(cs_) == 1 and bool(se_) and len(tb_) == 1 and all(not (set(v_.reach([e_], avoid=[cs_[0].bb])) & set(v_.exits())) for e_ in se_) and prims.must_pass(v_, cs_[0].bb, [tb_[0].bb])[0]
         ctx.ob(ok_, '%s: every operation that was removed from the table passes the DISCONNECT completion, whose error is propagated with `?`' % short(fn_), 'disconnect-completion|' + short(fn_), loc=v_.loc(), rule='R-C12-3')
     # ---- added after the mutation sweep: the per-state loops of both drivers leave the state when the client says so and when
     # the attempt / connection failed (an outcome is reported once, then the state is left: no second outcome for the same attempt)
@@ -315,4 +315,9 @@ def run(ctx):
     _ns = _sh.builder_setters(ctx, lambda b, m: b == 'StopOptionsBuilder', 'R-C12-3', 'a stop request carries the DISCONNECT the application asked for')
     if ctx.config == 'all':
         ctx.floor(_ns, 1, 'builder setters this property depends on')
+    # ---- added after defect 18: the event stream a listener observes is the stream the client emitted (shared with C05)
+    from . import shared as _sh4
+    _n5 = _sh4.import_obligations(ctx, 'C05', lambda o: '|listener-order|' in o['key'] or o['key'].startswith('listener-order|'), 'R-C12-1', 'attempt / outcome / disconnection / stopped events reach a listener in the order they were emitted')
+    if ctx.config == 'all':
+        ctx.floor(_n5, 4, 'listener hand-off obligations shared with C05')
 
